@@ -11,7 +11,7 @@ Ltac Zify.zify_post_hook ::= Z.to_euclidean_division_equations.
 (* the headers the format admits for a tuple of n items *)
 Inductive tup_header (n : N) : list byte -> Prop :=
 | TH_short h : n < LIM -> hdr_tup n = Ok h -> tup_header n h                      (* what the shortest-form encoder picks *)
-| TH_L1 : n < 256 -> n <> 0 -> tup_header n [x14; b_of n]
+| TH_L1 : n < 256 -> tup_header n [x14; b_of n]                              (* also for the empty tuple: 14 00 *)
 | TH_L4 : n < 4294967296 -> tup_header n (x15 :: be4 n).
 
 Section A.
@@ -57,7 +57,7 @@ Fixpoint depths (l : list pyval) : nat := match l with [] => O | y :: ys => Nat.
 
 Lemma tuple_acc f l bss h : tup_header (nlen l) h -> accs f l bss -> acc (S f) (PTuple l) (h ++ concat bss).
 Proof.
-  intros Hh (Hl & Hc & Hi). destruct Hh as [h Hn Eh|H256 H0|H32].
+  intros Hh (Hl & Hc & Hi). destruct Hh as [h Hn Eh|H256|H32].
   - destruct (hdr_tup_ok _ Hn) as (h' & Eh' & Nh' & Hh'). rewrite Eh in Eh'. injection Eh' as <-. split.
     { destruct h; [congruence|discriminate]. }
     intros rest. cbn [load_f]. rewrite <- List.app_assoc, Hh'. destruct (N.eqb_spec (nlen l) 0) as [E|E].
